@@ -21,6 +21,13 @@ Core Lean only.
   `Choice.restart` runs the recovery scan of `readDiskQueue`, after which the same steps apply
   again — crashes inside recovery to any depth are therefore ordinary runs.
 * Ghost fields (`Ghost`) record history only; no step reads them.
+* The stored metadata (`SMeta`) carries, besides the pending recipients and their counters, whether
+  the reverse-path is the null one (`nullFrom`; `QueueMetadata.MsgMeta.OriginalFrom == ""`): it is
+  serialised with the rest, survives every rewrite (`nextMeta`) and every recovery, is NOT looked at
+  by `readDiskQueue`/`openMessage` (a bounce is scheduled like any other message), and decides in
+  `tryDelivery` → `emitDSN` whether the recipients that failed for good are reported
+  (`reportedNow`) or given up on silently (`gaveUpNow`).  Other spellings of the envelope
+  (internationalised, quoted local parts) are opaque `Addr` values to the model.
 
 The code mirrored is the tree WITH the commit "fix: queue made the meta-data of a new message
 durable before its header and body" (`storeNewMessage` fsyncs header and body before it calls
@@ -110,10 +117,13 @@ def Disk.lose (keep : FKind → Nat) (d : Disk) : Disk :=
     metaNew := d.metaNew.map (File.lose (keep .metaNew))
     broken := d.broken.map (File.lose (keep .broken)) }
 
-/-- Serialised queue metadata: recipients still to be tried and their attempt counters. -/
+/-- Serialised queue metadata: recipients still to be tried, their attempt counters, and whether the
+reverse-path the failure report would go to (`MsgMeta.OriginalFrom`) is the null one (`MAIL FROM:<>`,
+a bounce): `emitDSN` returns at once for it, so a recipient the queue gives up on gets no report. -/
 structure SMeta where
   to    : List Addr
   tries : List (Addr × Nat)
+  nullFrom : Bool
 deriving DecidableEq, Repr
 
 def SMeta.triesFn (m : SMeta) : Addr → Nat :=
@@ -215,7 +225,11 @@ structure Ghost where
   aborted  : Bool := false              -- Abort returned
   removing : Bool := false              -- some removal of this id's files was begun
   quarantined : Bool := false           -- a delivery goroutine panicked (`discardBroken`)
-  term     : List Addr := []            -- recipients that got a terminal outcome (delivered / reported)
+  term     : List Addr := []            -- recipients that got a terminal outcome (delivered / reported / given up, see below)
+  nullFrom : Bool := false              -- the accepted transaction had the null reverse-path
+  dlv      : List Addr := []            -- … delivered by the target
+  reported : List Addr := []            -- … named in a failure report handed to the bounce pipeline
+  gaveUp   : List Addr := []            -- … failed for good while the reverse-path is null: no report can be sent
   commits  : List SMeta := []           -- metadata snapshots made durable by a completed rename, newest first
   attempts : List (List Addr) := []     -- recipient lists of the delivery attempts begun, newest first
 
@@ -239,7 +253,7 @@ structure St where
   g    : Ghost := {}
 
 inductive Choice
-  | accept (rcpts : List Addr) (hdr body : Bytes)   -- `Body` is called: `storeNewMessage` begins
+  | accept (rcpts : List Addr) (hdr body : Bytes) (nullFrom : Bool)   -- `Body` is called: `storeNewMessage` begins
   | op                                              -- the next file-system operation is issued
   | commit
   | abort
@@ -256,18 +270,24 @@ def attemptResult (P : Params) (m : SMeta) (e : Errs) : Acc :=
 
 def delivered (m : SMeta) (e : Errs) : List Addr := m.to.filter (fun r => (e r).isNone)
 
-def nextMeta (a : Acc) : SMeta := ⟨a.newR, a.newR.map (fun r => (r, a.tries r))⟩
+def nextMeta (m : SMeta) (a : Acc) : SMeta := ⟨a.newR, a.newR.map (fun r => (r, a.tries r)), m.nullFrom⟩
+
+/-- Recipients named in the failure report of this attempt (`emitDSN`: none for the null reverse-path). -/
+def reportedNow (m : SMeta) (a : Acc) : List Addr := if m.nullFrom then [] else a.failedR
+
+/-- Recipients the queue gives up on without a report (null reverse-path). -/
+def gaveUpNow (m : SMeta) (a : Acc) : List Addr := if m.nullFrom then a.failedR else []
 
 def isRemove : Op → Bool
   | .remove _ => true
   | _ => false
 
 def step? (P : Params) (s : St) : Choice → Option St
-  | .accept rcpts h b =>
+  | .accept rcpts h b nf =>
     match s.pc with
     | .fresh =>
       if P.hdrOk h then
-        some { s with pc := .store ⟨rcpts, []⟩ h b 0, g := { s.g with orig := rcpts, hdr := h, body := b } }
+        some { s with pc := .store ⟨rcpts, [], nf⟩ h b 0, g := { s.g with orig := rcpts, hdr := h, body := b, nullFrom := nf } }
       else none
     | _ => none
   | .op =>
@@ -324,9 +344,12 @@ def step? (P : Params) (s : St) : Choice → Option St
     match s.pc with
     | .attempting m =>
       let a := attemptResult P m e
-      let g' := { s.g with term := s.g.term ++ delivered m e ++ a.failedR }
+      let g' := { s.g with term := s.g.term ++ delivered m e ++ a.failedR
+                           dlv := s.g.dlv ++ delivered m e
+                           reported := s.g.reported ++ reportedNow m a
+                           gaveUp := s.g.gaveUp ++ gaveUpNow m a }
       if a.newR.isEmpty then some { s with pc := .remove 0, g := { g' with removing := true } }
-      else some { s with pc := .update (nextMeta a) 0, g := g' }
+      else some { s with pc := .update (nextMeta m a) 0, g := g' }
     | _ => none
   | .panic =>
     match s.pc with
@@ -370,14 +393,15 @@ theorem decTries_encTries (l : List (Addr × Nat)) : decTries (encTries l) = l :
   | nil => rfl
   | cons p t ih => cases p; simp [encTries, decTries, ih]
 
-def listSer (m : SMeta) : Bytes := m.to.length :: (m.to ++ encTries m.tries)
+def listSer (m : SMeta) : Bytes := (if m.nullFrom then 1 else 0) :: m.to.length :: (m.to ++ encTries m.tries)
 
 def listParse : Bytes → Option SMeta
-  | [] => none
-  | n :: rest => if n ≤ rest.length then some ⟨rest.take n, decTries (rest.drop n)⟩ else none
+  | f :: n :: rest => if n ≤ rest.length then some ⟨rest.take n, decTries (rest.drop n), f == 1⟩ else none
+  | _ => none
 
 theorem listParse_listSer (m : SMeta) : listParse (listSer m) = some m := by
-  simp [listSer, listParse, decTries_encTries]
+  cases m with
+  | mk to tries nf => cases nf <;> simp [listSer, listParse, decTries_encTries]
 
 def listCodec : Codec := ⟨listSer, listParse, listParse_listSer⟩
 
